@@ -382,8 +382,10 @@ def check_dm(spec):
                 return bad(f"dm:{law}:value", [repr(l), repr(r)], "model", words=words)
         for law, l, r, m in laws:
             if not l == r:
-                negk = any(X.k < 0 for X in (A, B, C))
-                return bad("dm:eq-representation-not-canonical" + (":negative-k-operand" if negk else ""), repr(l), repr(r), law=law, words=words)
+                # normalize() pulls sqrt2 out of the entries only while k > 0: representations with k <= 0 are not unique
+                nonpos = min(l.k, r.k) <= 0
+                return bad("dm:eq-representation-not-canonical" + (":nonpositive-k" if nonpos else ""), repr(l), repr(r), law=law, words=words,
+                           ks=[l.k, r.k])
     D = pairs[-1][0]
     return ok([len(words), [len(w) for w in words], D.k, sum(abs(v) for s in D.flatten for v in zw_t(s)) % 97], nontrivial=sum(len(w) for w in words) > 1)
 
@@ -497,7 +499,8 @@ class _Owned:
 
 
 class _Watchdog:
-    """A case of the solver family that does not return within `seconds` is reported as a violation (a broken ring operation
+    """A case of the solver family that does not return within `seconds` of CPU time (ITIMER_VIRTUAL: independent of machine
+    load; unmutated cases need well under 1 s) is reported as a violation (a broken ring operation
     can make the Euclidean gcd loop forever); never used to truncate the exploration."""
 
     tripped = False  # after one genuine timeout in this process the remaining cases get a short fuse
@@ -513,18 +516,18 @@ class _Watchdog:
         if self.active:
             def fire(*_):
                 _Watchdog.tripped = True
-                raise TimeoutError(f"no result within {self.seconds}s")
+                raise TimeoutError(f"no result within {self.seconds}s of CPU time")
 
-            self.old = signal.signal(signal.SIGALRM, fire)
-            signal.setitimer(signal.ITIMER_REAL, self.seconds)
+            self.old = signal.signal(signal.SIGVTALRM, fire)
+            signal.setitimer(signal.ITIMER_VIRTUAL, self.seconds)
         return self
 
     def __exit__(self, *a):
         import signal
 
         if self.active:
-            signal.setitimer(signal.ITIMER_REAL, 0)
-            signal.signal(signal.SIGALRM, self.old)
+            signal.setitimer(signal.ITIMER_VIRTUAL, 0)
+            signal.signal(signal.SIGVTALRM, self.old)
         return False
 
 
@@ -742,6 +745,14 @@ def check_primes_special(spec):
 # ------------------------------------------------------------------------------------------------ driver
 def run(ctx):
     q = ctx.quick
+    if ctx.only:  # development aid: ./run C16 --only dyadic  (restrict to axes containing the substring)
+        real = ctx.enumerate
+
+        def filtered(specs, **kw):
+            if ctx.only in (kw.get("axis") or ""):
+                real(specs, **kw)
+
+        ctx.enumerate = filtered
     # Z[sqrt2]
     for name in ("small", "mag"):
         els = zs_elements(name)
